@@ -11,45 +11,52 @@ Definition default_fuel : nat := Z.to_nat 6000.
 
 (* ---------------------------------------------------------------- pipeline *)
 
-Inductive cres :=
+Inductive cres_ :=
 | CLowerErr                         (* lowering reports an internal error *)
-| CNoParse (ts : list tt)           (* emitted tokens are not a Rust function body *)
-| COk (ts : list tt) (b : rblock).
+| CNoParse (ts : list tt)           (* emitted tokens are not a sequence of Rust function items *)
+| COk (ts : list tt) (p : rprog).
 
-Definition compile (c : fcase) : cres :=
-  match lower_fn c with
+Definition compile (c : fcase) : cres_ :=
+  match lower_prog (cprog c) with
   | LErr => CLowerErr
-  | LOk ib =>
-      let ts := emit_block ib in
-      match parse_block ts with
-      | Some b => COk ts b
+  | LOk fs =>
+      let ts := emit_fns fs in
+      match parse_items ts with
+      | Some p => COk ts p
       | None => CNoParse ts
       end
   end.
 
-(* behaviour of the compiled function (release build) *)
+(* the emitted arguments of the entry call `f<entry>(args)` *)
+Definition entry_args (c : fcase) : list rexpr :=
+  match lower_c (cprog c) [] (CCall (centry c) (map EInt (args c)) []) with
+  | ICallU _ l => map tree_of l
+  | IPure _ => []
+  end.
+
+(* behaviour of the compiled program (release build) when the entry function is called *)
 Definition run_compiled (fuel : nat) (c : fcase) : option (list line * stop) :=
   match compile c with
-  | COk _ b => Some (rrun fuel (params c) (args c) b)
+  | COk _ p => Some (rrun fuel p (centry c) (entry_args c))
   | _ => None
   end.
 
 (* ---------------------------------------------------------------- class 1: grouping *)
 
-(* Known_C01_grouping: somewhere in the function an expression is emitted so that Rust's grammar
+(* Known_C01_grouping: somewhere in the program an expression is emitted so that Rust's grammar
    groups it differently from the source tree (lost parentheses, `not` over a comparison, ...).
-   Defined by the re-parse itself: [reparses] for a whole body, Core.Lower.regroups for one
+   Defined by the re-parse itself: [reparses] for a whole program, Core.Lower.regroups for one
    expression. *)
-(* the emitted body reads back (Rust's grammar) as the body the IR denotes *)
-Definition reparses (ib : iblock) : bool :=
-  match parse_block (emit_block ib) with
-  | Some b => rblock_eqb b (tree_of_block ib)
+(* the emitted items read back (Rust's grammar) as the functions the IR denotes *)
+Definition reparses (fs : list ifn) : bool :=
+  match parse_items (emit_fns fs) with
+  | Some p => rprog_eqb p (tree_of_fns fs)
   | None => false
   end.
 
 Definition known_grouping (c : fcase) : bool :=
-  match lower_fn c with
-  | LOk ib => negb (reparses ib)
+  match lower_prog (cprog c) with
+  | LOk fs => negb (reparses fs)
   | LErr => false
   end.
 Definition Known_C01_grouping (c : fcase) : Prop := known_grouping c = true.
@@ -94,11 +101,20 @@ Fixpoint cmp_anch (A : aenv) (e : rexpr) : bool :=
   | _ => true
   end.
 
+(* call-level: a call's arguments and result are i64 by the callee's signature *)
+Definition anch_c (A : aenv) (c : rcexpr) : bool :=
+  match c with RPure e => anch A e | RUCall _ _ => true end.
+Definition cmp_anch_c (A : aenv) (c : rcexpr) : bool :=
+  match c with RPure e => cmp_anch A e | RUCall _ l => forallb (cmp_anch A) l end.
+
 Fixpoint anch_stmt (A : aenv) (s : rstmt) : bool * aenv :=
   match s with
-  | GLet x _ e => (cmp_anch A e && anch A e, abind x (anch A e) A)
-  | GAssign x e => (cmp_anch A e && (alookup x A || anch A e), A)
-  | GPrint e => (cmp_anch A e && anch A e, A)
+  | GLet x _ e => (cmp_anch_c A e && anch_c A e, abind x (anch_c A e) A)
+  | GAssign x e => (cmp_anch_c A e && (alookup x A || anch_c A e), A)
+  | GPrint e => (cmp_anch_c A e && anch_c A e, A)
+  | GExpr e => (cmp_anch_c A e, A)
+  | GReturn None => (true, A)
+  | GReturn (Some e) => (cmp_anch_c A e, A)          (* unified with the i64 return type *)
   | GIf c th el =>
       (cmp_anch A c && fst (anch_block ([] :: A) th) &&
        match el with GNoElse => true | GElse b => fst (anch_block ([] :: A) b) end, A)
@@ -119,20 +135,72 @@ Definition all_anchored (ps : list ident) (b : rblock) : bool :=
   fst (anch_block [map (fun p => (p, true)) ps] b).
 
 Definition known_int_fallback (c : fcase) : bool :=
-  match lower_fn c with
-  | LOk ib => negb (all_anchored (params c) (tree_of_block ib))
+  match lower_prog (cprog c) with
+  | LOk fs => negb (forallb (fun d => all_anchored (iparams d) (tree_of_block (ibody d))) fs)
   | LErr => false
   end.
 Definition Known_C01_int_fallback (c : fcase) : Prop := known_int_fallback c = true.
 
-(* a small function used to show that the theorems' hypotheses are satisfiable:
-   def t(v0: int, v1: int): mut v2 = v0 + 7; for v3 in range(3): println(v2 + v3);
-                            if v1 < 0: println(v1 // 2)          called as t(3, -7) *)
+(* Fragment restriction on calls: keyword arguments written OUT of declaration order must be atoms
+   (literals or variables).  The emitted Rust evaluates arguments in declaration order, the
+   source in written order; with call-free arguments the difference is not observable, and for atoms
+   that needs no typing argument.  (With calls nested in arguments — outside this fragment — it IS
+   observable: finding kwarg-eval-order.) *)
+Definition atom (e : expr) : bool :=
+  match e with EInt _ | EBool _ | EVar _ => true | _ => false end.
+Fixpoint is_seq (l : list nat) (i : nat) : bool :=
+  match l with [] => true | x :: r => Nat.eqb x i && is_seq r (S i) end.
+Definition call_wf (P : prog) (c : cexpr) : bool :=
+  match c with
+  | CPure _ => true
+  | CCall f pos kw =>
+      match find_fn f P with
+      | Some d =>
+          match select (fparams d) (length pos) O (map fst kw) with
+          | Some sel => (Nat.eqb (length sel) (length pos + length kw) && is_seq sel O)
+                        || forallb atom (pos ++ map snd kw)
+          | None => true
+          end
+      | None => true
+      end
+  end.
+Fixpoint calls_wf_stmt (P : prog) (s : stmt) : bool :=
+  match s with
+  | SAssign _ _ _ c | SPrint c | SExpr c => call_wf P c
+  | SReturn (Some c) => call_wf P c
+  | SIf _ th el => calls_wf_block P th && calls_wf_els P el
+  | SWhile _ b | SFor _ _ b => calls_wf_block P b
+  | _ => true
+  end
+with calls_wf_block (P : prog) (b : block) : bool :=
+  match b with BNil => true | BCons s r => calls_wf_stmt P s && calls_wf_block P r end
+with calls_wf_els (P : prog) (el : els) : bool :=
+  match el with
+  | ENone => true
+  | EElse b => calls_wf_block P b
+  | EElif _ b rest => calls_wf_block P b && calls_wf_els P rest
+  end.
+Definition calls_wf (P : prog) : bool := forallb (fun d => calls_wf_block P (fbody d)) P.
+
+(* a small program used to show that the theorems' hypotheses are satisfiable:
+   def f1(v0: int, v1: int) -> int: return v0 * 10 - v1
+   def f0(v0: int, v1: int) -> None:
+       mut v2 = v0 + 7
+       for v3 in range(3): println(v2 + v3)
+       if v1 < 0: println(v1 // 2)
+       v4 = f1(v1=v0, v0=2)            # keyword arguments out of declaration order
+       println(v4)                      called as f0(3, -7) *)
 Definition nonvacuous_case : fcase :=
-  {| params := [0; 1]; args := [3; -7];
-     body := blk [SAssign BMut 2 None (EBin OpAdd (EVar 0) (EInt 7));
-                  SFor 3 (R1 (EInt 3)) (blk [SPrint (EBin OpAdd (EVar 2) (EVar 3))]);
-                  SIf (EBin OpLt (EVar 1) (EInt 0)) (blk [SPrint (EBin OpFloorDiv (EVar 1) (EInt 2))]) ENone] |}.
+  {| cprog :=
+       [{| fname := 1; fparams := [0; 1]; fret := true;
+           fbody := blk [SReturn (Some (CPure (EBin OpSub (EBin OpMul (EVar 0) (EInt 10)) (EVar 1))))] |};
+        {| fname := 0; fparams := [0; 1]; fret := false;
+           fbody := blk [SAssign BMut 2 None (CPure (EBin OpAdd (EVar 0) (EInt 7)));
+                         SFor 3 (R1 (EInt 3)) (blk [SPrint (CPure (EBin OpAdd (EVar 2) (EVar 3)))]);
+                         SIf (EBin OpLt (EVar 1) (EInt 0)) (blk [SPrint (CPure (EBin OpFloorDiv (EVar 1) (EInt 2)))]) ENone;
+                         SAssign BInferred 4 None (CCall 1 [] [(1, EVar 0); (0, EInt 2)]);
+                         SPrint (CPure (EVar 4))] |}];
+     centry := 0; args := [3; -7] |}.
 
 (* ---------------------------------------------------------------- rendering *)
 
@@ -152,18 +220,18 @@ Definition op_code (o : op) : Z :=
 Definition kw_code (k : kw) : Z :=
   match k with
   | KLet => 40 | KMut => 41 | KIf => 42 | KElse => 43 | KWhile => 44 | KLoop => 45 | KFor => 46
-  | KIn => 47 | KBreak => 48 | KContinue => 49
+  | KIn => 47 | KBreak => 48 | KContinue => 49 | KReturn => 50 | KFn => 51
   end.
 Definition helper_code (h : helper) : Z :=
   match h with HModI64 => 10 | HMod => 11 | HFloorI64 => 12 | HFloor => 13 end.
 
 Definition tok_code (t : tok) : list Z :=
   match t with
-  | TInt n => [1; n] | TId x => [2; x] | TTrue => [3] | TFalse => [4]
+  | TInt n => [1; n] | TId x => [2; x] | TFn f => [5; f] | TTrue => [3] | TFalse => [4]
   | TPath h => [helper_code h] | TRange => [15]
   | TOp o => [op_code o] | TKw k => [kw_code k]
   | TSemi => [60] | TComma => [61] | TAssign => [62] | TBang => [63] | TPrintln => [64] | TFmt => [65]
-  | TAs => [66] | TI64 => [67]
+  | TAs => [66] | TI64 => [67] | TColon => [68] | TArrow => [69]
   end.
 
 Fixpoint tt_codes (t : tt) : list Z :=
@@ -176,18 +244,18 @@ Fixpoint tt_codes (t : tt) : list Z :=
   end.
 Definition tts_codes (ts : list tt) : list Z := flat_map tt_codes ts.
 
-(* one record per generated function:
+(* one record per generated program:
    (source lines, source stop), (compile status, rust lines, rust stop, well-typed),
-   (known_grouping, known_int_fallback), emitted token codes *)
+   (known_grouping, known_int_fallback, calls_wf), emitted token codes of the whole file *)
 Definition render_out (r : list line * stop) : list (Z * Z) * Z :=
   (map render_line (fst r), render_stop (snd r)).
 
 Definition run_case (fuel : nat) (c : fcase)
-  : (list (Z * Z) * Z) * (Z * (list (Z * Z) * Z) * bool) * (bool * bool) * list Z :=
+  : (list (Z * Z) * Z) * (Z * (list (Z * Z) * Z) * bool) * (bool * bool * bool) * list Z :=
   let src := render_out (run fuel c) in
-  let flags := (known_grouping c, known_int_fallback c) in
+  let flags := (known_grouping c, known_int_fallback c, calls_wf (cprog c)) in
   match compile c with
   | CLowerErr => (src, (1, ([], 6), false), flags, [])
   | CNoParse ts => (src, (2, ([], 6), false), flags, tts_codes ts)
-  | COk ts b => (src, (0, render_out (rrun fuel (params c) (args c) b), rtype_fn (params c) b), flags, tts_codes ts)
+  | COk ts p => (src, (0, render_out (rrun fuel p (centry c) (entry_args c)), rtype_prog p), flags, tts_codes ts)
   end.
